@@ -328,6 +328,7 @@ static void run_case(uint64_t idx, void *vctx) {
     q_n = 0; g_alloc_seq = 0; g_marker_armed = 0; g_marker_seq = -1; g_fsync_after_marker = -1;
     iolog_start(path, 1, 1);
     g_io.on_event = g_controlled ? io_event : NULL;
+    g_io.before_io = g_controlled ? coop_preempt : NULL;
     coop_on_stuck = on_stuck;
     if (g_controlled) coop_begin(&cfg); else coop_inject_delays(cfg.seed, 150, 200);
     g_monitor_on = 1;
